@@ -233,7 +233,7 @@ impl GuiState {
                     self.pc += 1;
                     return self.hand_over("isready".to_string(), core);
                 }
-                Intent::Raw(l) => {
+                Intent::Raw(l) | Intent::RawNow(l) => {
                     self.pc += 1;
                     return self.hand_over(l, core);
                 }
